@@ -134,6 +134,20 @@ def run(ctx, rep):
                "every path from the successful acquire to an exit (normal or exceptional) passes through release()"
                if bad is None else "a path leaves _send with the send lock still held",
                ctx.loc(n), witness=ctx.path(bad) if bad else None)
+    rel_ids = {r.id for r in rel_nodes}
+    for (n, lab) in acq_edges:
+        for s0 in [t for t, l in n.succ if l == lab]:
+            # count releases until the lock is tried again or the function is left
+            stop = {a.id for a in acq_nodes}
+            cnt = Q.count_on_paths(g, s0, lambda x: x.id in rel_ids, edge_ok=lambda a, b, l: a.id not in stop or a is s0)
+            worst = set()
+            for x in [g.exit, g.excexit] + acq_nodes:
+                worst |= set(cnt.get(x.id, ()))
+            ok1 = worst <= {1}
+            rep.ob("R12.1", "Connection send layer: exactly one release per successful acquire", ok1,
+                   "every path from the acquired edge to the next try-lock / exit releases once" if ok1 else
+                   "a path releases the send lock %s times after one acquire: the second release unlocks a lock that another "
+                   "thread has taken meanwhile (two writers interleave) or raises RuntimeError" % sorted(worst), ctx.loc(n))
     acq_edge_set = {(n.id, lab) for n, lab in acq_edges}
     for r in rel_nodes:
         p = Q.find_path_ef(g.entry, lambda x: x is r, lambda a, b, l: (a.id, l) not in acq_edge_set)
